@@ -64,21 +64,23 @@ Definition relate_oracle (r : bnrule) (A B : geom) : matrix := ofinal (oracle_ev
 Definition side_ok (r : bnrule) (A B : geom) : bool := side_ok_with loc_dim_fast r A B.
 
 (* ---- nodes whose coordinates are not binary64 numbers ----
-   The implementation computes a proper intersection point in binary64 and uses the rounded point as the identity of the node.
-   When the exact point is not representable and lies on a third segment (of either geometry; a segment and its reverse count
-   once), the points computed for different segment pairs differ and the rounded point is not on the third segment: the node
-   topology the implementation builds is not that of the exact arrangement (known finding C01-F3).  `fragile_nodes` lists
-   these nodes; the check accepts a disagreement as that known finding only when this list is not empty. *)
+   The implementation computes a proper intersection point in binary64 and uses the rounded point as the identity of the node
+   and as the point it locates in the two geometries.  When the exact point is not representable and at least three segments
+   pass through it (counted per geometry: the segments of A and those of B separately, a segment and its reverse once), the
+   points computed for different segment pairs differ, or the rounded point is located off a segment it should lie on: the
+   node topology the implementation builds is not that of the exact arrangement (known finding C01-F3).  `fragile_nodes`
+   lists these nodes; the check accepts a disagreement as that known finding only when this list is not empty. *)
 Fixpoint pos_odd (p : positive) : positive := match p with xO q => pos_odd q | _ => p end.
 Definition odd_part (x : Z) : Z := match x with Z0 => 0 | Zpos p => Zpos (pos_odd p) | Zneg p => Zpos (pos_odd p) end.
 (* x / w is a binary64 number (w > 0, fraction in lowest terms, magnitudes far inside the exponent range) *)
 Definition representable (q : hpt) : bool :=
   (odd_part (hw q) =? 1) && (odd_part (hx q) <? 2 ^ 53) && (odd_part (hy q) <? 2 ^ 53).
 Definition seg_same (s t : seg) : bool := seg_eqb s t || seg_eqb s (snd t, fst t).
+Definition segs_through (q : hpt) (ss : list seg) : Z :=
+  Z.of_nat (length (nodup_by seg_same (filter (fun s => on_seg_h q (fst s) (snd s)) ss))).
 Definition fragile_nodes (A B : geom) : list hpt :=
-  let ss := all_segs A B in
-  filter (fun q => negb (representable q) &&
-                   (3 <=? Z.of_nat (length (nodup_by seg_same (filter (fun s => on_seg_h q (fst s) (snd s)) ss))))) (nodes A B).
+  let sa := geom_segs A in let sb := geom_segs B in
+  filter (fun q => negb (representable q) && (3 <=? segs_through q sa + segs_through q sb)) (nodes A B).
 
 (* matrix and certificate in one pass over the witnesses (OracleProofs.oracle_run_eq: = (relate_oracle, side_ok)) *)
 Definition oracle_run (r : bnrule) (A B : geom) : matrix * bool :=
